@@ -96,6 +96,15 @@ func main() {
 		}
 	case "check":
 		os.Exit(runCheck(os.Args[2:]))
+	case "replay":
+		// govc replay <path>: show what a VIOLATION's replay file records (obligation, meaning, solver answer and model)
+		// and, where a hand-written replay test exists for the obligation (known findings / repaired defects), run it
+		// against the real code with go test -overlay.
+		if len(os.Args) < 3 {
+			fmt.Fprintln(os.Stderr, "usage: govc replay <path>")
+			os.Exit(2)
+		}
+		os.Exit(runReplay(os.Args[2]))
 	default:
 		fmt.Fprintln(os.Stderr, "unknown command")
 		os.Exit(2)
